@@ -145,9 +145,12 @@ def run(chk):
            "SqlImpl.export no longer names the result columns after the compiled select list")  # fmt: skip
     cq = sql.func("SqlImpl.compile_query")
     woc = [c for c in calls_in(cq) if isinstance(c.func, ast.Attribute) and c.func.attr == "with_only_columns"]
-    chk.ob("R5", sql, cq, "compile_query projects exactly query.select, in order", len(woc) == 1 and "for uid in query.select" in norm(woc[0]) and "sqa_expr[uid]" in norm(woc[0]),
-           "compile_query does not project the select list in the order of query.select")  # fmt: skip
     from .. import pipesim as _ps
+
+    # (the projection is decided on the interpreted compile_query; its spelling is the fallback)
+    if not _ps.report_compile_query(chk, m, "R5", ("select",), floor=8):
+        chk.ob("R5", sql, cq, "compile_query projects exactly query.select, in order", len(woc) == 1 and "for uid in query.select" in norm(woc[0]) and "sqa_expr[uid]" in norm(woc[0]),
+               "compile_query does not project the select list in the order of query.select")  # fmt: skip
 
     _ps.report(chk, m, "E2E", ['compile-error', 'placement', 'limit', 'order', 'select', 'shape', 'recompile'], depth_quick=3, depth_thorough=4, floor=1000)
 
